@@ -1,4 +1,159 @@
-def build(runner, ob, wdir, witness):
-    return None, 'IR engine not built yet'
-def build_native(runner, ob, defines, exe, wdir):
-    return False, 'IR engine not built yet'
+"""E-IR build pipeline: repo C++ units + C++ harness -> LLVM IR -> one module ->
+ir2c -> goto-cc; and the native builds used for replay / translator validation."""
+import os, re, hashlib, threading, json
+from . import runner as R
+from . import ir2c
+
+CLANG = ['clang++-14', '-std=gnu++98', '-O1', '-fno-vectorize', '-fno-slp-vectorize', '-fno-unroll-loops',
+         '-ffp-contract=off', '-fno-access-control', '-g1', '-fno-strict-aliasing', '-w',
+         '-D_GLIBCXX_EXTERN_TEMPLATE=0', '-DVERIF_IR', '-S', '-emit-llvm']
+GXX = ['g++', '-std=gnu++98', '-O1', '-g', '-ffunction-sections', '-fdata-sections', '-no-pie', '-Wl,--gc-sections', '-fno-access-control', '-w', '-DNATIVE_REPLAY',
+       '-fsanitize=address,undefined', '-fno-sanitize-recover=undefined', '-fno-omit-frame-pointer']
+
+_lock = threading.Lock()
+_locks = {}
+
+
+def _keylock(k):
+    with _lock:
+        if k not in _locks:
+            _locks[k] = threading.Lock()
+        return _locks[k]
+
+
+def chip_defs(ob):
+    return ['-D' + d for d in ob.ir_opts.get('chip_defs', [])]
+
+
+def compile_tu(run, src, flags, tag):
+    """clang one TU to .ll, cached per run by (path, flags)."""
+    cache = os.path.join(run.work, 'ircache')
+    os.makedirs(cache, exist_ok=True)
+    h = hashlib.sha1((src + '\0' + ' '.join(flags)).encode()).hexdigest()[:16]
+    out = os.path.join(cache, '%s-%s.ll' % (tag, h))
+    with _keylock(out):
+        if os.path.exists(out):
+            return out, ''
+        cmd = CLANG + flags + [src, '-o', out + '.tmp']
+        rc, o, e, w, rss, to = R.sh(cmd, timeout=300)
+        if rc != 0:
+            return None, 'clang failed on %s: %s' % (src, (e or o)[-1500:])
+        os.rename(out + '.tmp', out)
+    return out, ''
+
+
+def build(run, ob, wdir, witness):
+    defs = ['-D' + d for d in ob.all_defines(run.tier)]
+    if witness:
+        defs.append('-DWITNESS')
+    common = R.REAL_DEFS + R.REPO_INCS + ['-I' + R.HARN] + chip_defs(ob)
+    lls = []
+    for tu in ob.repo_tus:
+        ll, err = compile_tu(run, os.path.join(R.REPO, tu), common, re.sub(r'\W', '_', tu))
+        if ll is None:
+            return None, err
+        lls.append(ll)
+    hsrc = os.path.join(R.HARN, ob.src)
+    hll, err = compile_tu(run, hsrc, common + defs, 'h_' + re.sub(r'\W', '_', ob.src))
+    if hll is None:
+        return None, err
+    tag = 'w' if witness else 'h'
+    linked = os.path.join(wdir, tag + '.linked.ll')
+    rc, o, e, w, rss, to = R.sh(['llvm-link-14', '-S'] + [hll] + lls + ['-o', linked], timeout=300)
+    if rc != 0:
+        return None, 'llvm-link failed: ' + (e or o)[-1500:]
+    red = os.path.join(wdir, tag + '.red.ll')
+    rc, o, e, w, rss, to = R.sh(['opt-14', '-S', '-passes=internalize,globaldce',
+                                 '-internalize-public-api-list=' + ob.entry, linked, '-o', red], timeout=300)
+    if rc != 0:
+        return None, 'opt failed: ' + (e or o)[-1500:]
+    cfile = os.path.join(wdir, tag + '.c')
+    try:
+        ctext = ir2c.translate(open(red).read(), ob.entry, {'shift_checks': ob.ir_opts.get('shift_checks', False),
+                                                           'nsw_checks': ob.ir_opts.get('nsw_checks', False),
+                                                           'keep_extern': ob.ir_opts.get('keep_extern'),
+                                                           'lines': True})
+    except Exception as ex:
+        import traceback
+        return None, 'ir2c failed: %r %s' % (ex, traceback.format_exc()[-800:])
+    open(cfile, 'w').write(ctext)
+    try:
+        os.unlink(linked)
+    except OSError:
+        pass
+    gb = os.path.join(wdir, tag + '.gb')
+    rc, o, e, w, rss, to = R.sh(['goto-cc', '-DVERIF_CBMC', '-std=gnu11', cfile, '-o', gb], timeout=600)
+    if rc != 0:
+        return None, 'goto-cc failed on generated C: ' + (e or o)[-1500:]
+    info = {}
+    if not witness and ob.ir_opts.get('validate', True) and ob.native:
+        ok, n, msg = validate(run, ob, wdir, cfile)
+        info = {'tv_ok': ok, 'tv_vectors': n, 'tv_msg': msg}
+    return gb, info
+
+
+def native_sources(ob):
+    return [os.path.join(R.REPO, t) for t in ob.repo_tus]
+
+
+def build_native(run, ob, defines, exe, wdir):
+    """g++ build of the original harness + the real repo sources (sanitizers on)."""
+    common = R.REAL_DEFS + R.REPO_INCS + ['-I' + R.HARN] + chip_defs(ob) + ['-D' + d for d in defines]
+    cmd = GXX + common + [os.path.join(R.HARN, ob.src)] + native_sources(ob) + \
+        ['-x', 'c', os.path.join(R.HARN, 'native_rt.c'), '-DVERIF_ENTRY=' + ob.entry, '-o', exe, '-lm']
+    # native_rt.c is C: compile separately to avoid -std clash
+    rt_o = os.path.join(wdir, 'native_rt.o')
+    rc, o, e, w, rss, to = R.sh(['gcc', '-O1', '-g', '-c', os.path.join(R.HARN, 'native_rt.c'),
+                                 '-DVERIF_ENTRY=' + ob.entry, '-fsanitize=address,undefined', '-o', rt_o], timeout=120)
+    if rc != 0:
+        return False, (e or o)
+    cmd = GXX + common + [os.path.join(R.HARN, ob.src)] + native_sources(ob) + [rt_o, '-o', exe, '-lm', '-Wl,--unresolved-symbols=ignore-all']
+    rc, o, e, w, rss, to = R.sh(cmd, timeout=600)
+    return rc == 0, (e or o)
+
+
+def validate(run, ob, wdir, cfile):
+    """Translator validation: gcc build of the generated C vs g++ build of the
+    original harness + repo sources, same pseudo-random nondet streams, the
+    observation logs (verif_observe + exit status) must agree."""
+    nvec = ob.ir_opts.get('tv_vectors', 40)
+    gen = os.path.join(wdir, 'tv_gen')
+    rt_o = os.path.join(wdir, 'tv_rt.o')
+    rc, o, e, w, rss, to = R.sh(['gcc', '-O1', '-c', os.path.join(R.HARN, 'native_rt.c'), '-DVERIF_ENTRY=verif_entry',
+                                 '-o', rt_o], timeout=120)
+    if rc != 0:
+        return None, 0, 'native_rt build failed: ' + (e or o)[-300:]
+    rc, o, e, w, rss, to = R.sh(['gcc', '-O1', '-w', '-std=gnu11', cfile, rt_o, '-o', gen, '-lm'], timeout=600)
+    if rc != 0:
+        return None, 0, 'gcc failed on generated C: ' + (e or o)[-600:]
+    orig = os.path.join(wdir, 'tv_orig')
+    common = R.REAL_DEFS + R.REPO_INCS + ['-I' + R.HARN] + chip_defs(ob) + ['-D' + d for d in ob.all_defines(run.tier)]
+    rt2 = os.path.join(wdir, 'tv_rt2.o')
+    R.sh(['gcc', '-O1', '-c', os.path.join(R.HARN, 'native_rt.c'), '-DVERIF_ENTRY=' + ob.entry, '-o', rt2], timeout=120)
+    cmd = ['g++', '-std=gnu++98', '-O1', '-ffunction-sections', '-fdata-sections', '-no-pie', '-Wl,--gc-sections', '-fno-access-control', '-w', '-DNATIVE_REPLAY'] + common + \
+        [os.path.join(R.HARN, ob.src)] + native_sources(ob) + [rt2, '-o', orig, '-lm', '-Wl,--unresolved-symbols=ignore-all']
+    rc, o, e, w, rss, to = R.sh(cmd, timeout=600)
+    if rc != 0:
+        return None, 0, 'g++ failed on original harness: ' + (e or o)[-600:]
+    agree = 0
+    ran = 0
+    effective = 0
+    for i in range(nvec):
+        env = dict(os.environ)
+        env['VERIF_SEED'] = str(run.seed * 1000 + i + 1)
+        env['VERIF_SMALL'] = '1'
+        env.pop('VERIF_VALUES', None)
+        r1 = R.sh([gen], timeout=20, env=env, cwd=wdir)
+        r2 = R.sh([orig], timeout=20, env=env, cwd=wdir)
+        ran += 1
+        s1 = (r1[0], r1[1])
+        s2 = (r2[0], r2[1])
+        if r1[5] or r2[5]:
+            continue
+        if s1 != s2:
+            return False, ran, 'vector seed=%s: generated rc=%s obs=%r... original rc=%s obs=%r...' % (
+                env['VERIF_SEED'], r1[0], r1[1][-200:], r2[0], r2[1][-200:])
+        agree += 1
+        if r1[0] != 77:
+            effective += 1
+    return True, effective, 'vectors run: %d, past all assumptions: %d' % (agree, effective)
